@@ -81,6 +81,50 @@ var frontEnds = []frontEnd{
 		_, err := p.ParseReader(iotest.OneByteReader(bytes.NewReader(d)))
 		return err
 	}},
+	// readers that hand the text out in short reads: what a front-end does once per read (the
+	// byte-order-mark test, the end-of-buffer carry) must not depend on where the reads fall
+	{"oj.Parser.ParseReader/4", func(d []byte) error {
+		p := oj.Parser{}
+		_, err := p.ParseReader(gx.Chunking{Sizes: []int{4}}.Reader(d))
+		return err
+	}},
+	{"oj.Parser.ParseReader/5", func(d []byte) error {
+		p := oj.Parser{}
+		_, err := p.ParseReader(gx.Chunking{Sizes: []int{5}}.Reader(d))
+		return err
+	}},
+	{"oj.Load/7+eof", func(d []byte) error {
+		_, err := oj.Load(gx.Chunking{Sizes: []int{7}, EOFWithData: true}.Reader(d))
+		return err
+	}},
+	{"gen.Parser.ParseReader/4", func(d []byte) error {
+		p := gen.Parser{}
+		_, err := p.ParseReader(gx.Chunking{Sizes: []int{4}}.Reader(d))
+		return err
+	}},
+	{"gen.Parser.ParseReader/5+eof", func(d []byte) error {
+		p := gen.Parser{}
+		_, err := p.ParseReader(gx.Chunking{Sizes: []int{5}, EOFWithData: true}.Reader(d))
+		return err
+	}},
+	{"oj.Validator.ValidateReader/4", func(d []byte) error {
+		v := oj.Validator{OnlyOne: true}
+		return v.ValidateReader(gx.Chunking{Sizes: []int{4}}.Reader(d))
+	}},
+	{"oj.Validator.ValidateReader/7", func(d []byte) error {
+		v := oj.Validator{OnlyOne: true}
+		return v.ValidateReader(gx.Chunking{Sizes: []int{7}}.Reader(d))
+	}},
+	{"oj.Tokenizer.Load/4", func(d []byte) error {
+		t := oj.Tokenizer{}
+		t.OnlyOne = true
+		return t.Load(gx.Chunking{Sizes: []int{4}}.Reader(d), &oj.ZeroHandler{})
+	}},
+	{"oj.Tokenizer.Load/5+eof", func(d []byte) error {
+		t := oj.Tokenizer{}
+		t.OnlyOne = true
+		return t.Load(gx.Chunking{Sizes: []int{5}, EOFWithData: true}.Reader(d), &oj.ZeroHandler{})
+	}},
 	// instances with a history of earlier calls (internal/vet)
 	{"oj.Parser(veteran).Parse", func(d []byte) error { _, err := vet.OjParser().Parse(d); return err }},
 	{"oj.Parser(veteran).ParseReader", func(d []byte) error { _, err := vet.OjParser().ParseReader(bytes.NewReader(d)); return err }},
@@ -423,6 +467,14 @@ func drawCase(t *rapid.T) Case {
 		text = append([]byte{0xEF, 0xBB, 0xBF}, text...)
 	case 1:
 		text = append([]byte{0xEF, 0xBB}, text...)
+	case 2, 3:
+		// a byte order mark anywhere but at the start is not JSON, wherever the reads fall
+		at := rapid.IntRange(0, len(text)).Draw(t, "bomAt")
+		if rapid.IntRange(0, 3).Draw(t, "bomAtBlock") == 0 && len(text) > 4096 {
+			at = 4096 * rapid.IntRange(1, len(text)/4096).Draw(t, "block")
+		}
+		text = append(append(append([]byte(nil), text[:at]...), 0xEF, 0xBB, 0xBF), text[at:]...)
+		src += "+bom-inside"
 	}
 	return Case{Input: text, Src: src}
 }
